@@ -34,8 +34,11 @@ NEnv == 8
 Wb(env) == [cells |-> [a \in {<<"Sheet1", i, 1>> : i \in 1..4} |-> [c |-> "const", v |-> env[a[2]]]],
             names |-> <<>>]
 
-Lits == << <<50>>, <<48, 46, 53>>, <<53, 48, 37>>, <<53, 69, 45, 49>>, <<50, 46, 53, 69, 43, 48>>, <<51>> >>
+Lits == << <<50>>, <<48, 46, 53>>, <<53, 48, 37>>, <<53, 69, 45, 49>>, <<50, 46, 53, 69, 43, 48>>, <<51>>,
+          <<50, 46, 53, 37>>, <<48, 46, 53, 37>>, <<49, 69, 43, 49, 37>>, <<50, 48, 48, 37>> >>
        \*    2        0.5            50%           5E-1                2.5E+0                      3
+       \*    2.5%                0.5%                1E+1%                     200%
+NLit == 10
 
 NegIf(b, x) == IF b THEN Neg(x) ELSE x
 
@@ -74,9 +77,13 @@ InitCase ==
               p == IF full THEN FullParen(t) ELSE MinParen(t)
           IN case = Mk(IF full THEN "shape-full" ELSE "shape-min", t, Formula(p, Style0), 1)
   \/ /\ "lit" \in Families
-     /\ \E o1 \in Ops, o2 \in Ops, i \in 1..6, j \in 1..6, ng \in BOOLEAN :
+     /\ \E o1 \in Ops, o2 \in Ops, i \in 1..NLit, j \in 1..NLit, ng \in BOOLEAN :
           LET run == <<NumLit(Lits[i]), o1, NegIf(ng, NumLit(Lits[j])), o2, C1>>
           IN case = Mk("lit", Climb(run), <<61>> \o RenderRun(run, Style0), 1)
+  \/ /\ "lit" \in Families
+     /\ \E o1 \in Ops, o2 \in Ops, j \in 1..NLit, ng \in BOOLEAN :
+          LET run == <<A1, o1, B1, o2, NegIf(ng, NumLit(Lits[j]))>>
+          IN case = Mk("lit-last", Climb(run), <<61>> \o RenderRun(run, Style0), 1)
   \/ /\ "gap" \in Families
      /\ \E o1 \in Ops, o2 \in Ops, cls \in {"lead", "trail", "opl", "opr"}, g \in 1..3 :
           LET run == <<A1, o1, B1, o2, C1>>
